@@ -10,6 +10,7 @@ import (
 	"path/filepath"
 	"regexp"
 	"strings"
+	"syscall"
 	"time"
 
 	"github.com/markusressel/fan2go/zverif/check"
@@ -25,6 +26,7 @@ type childOut struct {
 	Stderr   string
 	Timeout  bool
 	WorldDir string
+	Stuck    string // the program is blocked for ever on a lock taken at this frame of its own code
 	OutDir   string
 	End      string // end:<reason> note ("" if the process died before)
 	// panic classification
@@ -106,6 +108,36 @@ func classifyPanic(se string) (msg, site string, harness bool) {
 	return msg, site, false
 }
 
+// stuckOnRepoLock looks through a goroutine dump for a goroutine that waits in sync.(*Mutex).Lock /
+// (*RWMutex).Lock|RLock called directly from fan2go code (not from the harness or its hooks): with the
+// journal silent for more than 30 s of real time this is a goroutine of the program blocked for ever.
+// It returns the calling frame, or "".
+func stuckOnRepoLock(dump string) string {
+	for _, g := range strings.Split(dump, "\n\ngoroutine ") {
+		lines := strings.Split(g, "\n")
+		for i, l := range lines {
+			if !(strings.HasPrefix(l, "sync.(*Mutex).Lock(") || strings.HasPrefix(l, "sync.(*RWMutex).Lock(") || strings.HasPrefix(l, "sync.(*RWMutex).RLock(")) {
+				continue
+			}
+			// the next function line (every frame is two lines: function, then file:line)
+			for j := i + 1; j < len(lines); j++ {
+				f := strings.TrimSpace(lines[j])
+				if f == "" || strings.HasPrefix(lines[j], "\t") || strings.HasPrefix(f, "sync.") {
+					continue
+				}
+				if strings.HasPrefix(f, "github.com/markusressel/fan2go/internal/") && !strings.Contains(f, "/simhook.") && !strings.Contains(f, "/zverif/") {
+					if k := strings.LastIndex(f, "("); k > 0 {
+						f = f[:k]
+					}
+					return strings.TrimPrefix(f, "github.com/markusressel/fan2go/")
+				}
+				break
+			}
+		}
+	}
+	return ""
+}
+
 // runChild executes one incarnation in a child process of this test binary.
 func runChild(spec *childSpec, timeout time.Duration) *childOut {
 	out := &childOut{WorldDir: spec.WorldDir, OutDir: spec.OutDir}
@@ -133,10 +165,24 @@ func runChild(spec *childSpec, timeout time.Duration) *childOut {
 			out.ExitCode = -1
 		}
 	case <-time.After(timeout):
-		_ = cmd.Process.Kill()
-		<-done
+		// how long has the journal been silent? (a child that is merely slow keeps writing)
+		silent := time.Duration(0)
+		if fi, err := os.Stat(filepath.Join(spec.OutDir, "journal.jsonl")); err == nil {
+			silent = time.Since(fi.ModTime())
+		}
+		// ask the Go runtime for a goroutine dump before killing
+		_ = cmd.Process.Signal(syscall.SIGQUIT)
+		select {
+		case <-done:
+		case <-time.After(10 * time.Second):
+			_ = cmd.Process.Kill()
+			<-done
+		}
 		out.Timeout = true
 		out.ExitCode = -9
+		if silent > 30*time.Second {
+			out.Stuck = stuckOnRepoLock(stderr.String())
+		}
 	}
 	se := stderr.String()
 	if len(se) > 1<<17 {
@@ -179,7 +225,7 @@ func runChild(spec *childSpec, timeout time.Duration) *childOut {
 		}
 		out.UILog = string(b)
 	}
-	if out.Timeout {
+	if out.Timeout && out.Stuck == "" {
 		out.Harness = "child watchdog expired"
 	}
 	if out.ExitCode == 12 {
@@ -252,3 +298,14 @@ var _ = world.IntP
 
 var repoFrameRe = regexp.MustCompile(`github\.com/markusressel/fan2go/(?:internal|cmd)[^\s]*\(`)
 var goroutineRe = regexp.MustCompile(`(?m)^goroutine \d+ `)
+
+// stuckViolation reports a program that is blocked for ever on one of its own locks (see stuckOnRepoLock).
+func stuckViolation(res *check.Result, prop string, co *childOut) bool {
+	if co.Stuck == "" {
+		return false
+	}
+	res.Violate(prop, "makes-progress", "makes-progress blocked-for-ever at "+co.Stuck, 0, nil,
+		"the program stopped making progress: a goroutine waits for ever for a lock taken in %s (journal silent for more than 30 s, simulated time cannot advance)", co.Stuck)
+	res.Nontrivial = true
+	return true
+}
